@@ -130,6 +130,27 @@ def run_case(case):
                 r.count("integrals_1d")
                 tol, lim = 1e-4, 1e-3
             else:
+                # where is the mass?  The tensor grid resolves its central part only (the outermost 1 % of its rows / columns are
+                # the truncation band).  A flow whose data-space law is spread over tens of decades (LogTanh with a large cut
+                # point: x = exp(y / 0.013)) puts almost none of its mass there, and the thin density it has there looks
+                # converged at every resolution.  The flow's own sampler is used for PLACEMENT only: if more than 0.1 % of its
+                # draws fall outside the resolved range the case is undecidable on this grid.
+                xs, _ = q.grid_1d(dom, case["n"])
+                k0 = max(2, len(xs) // 100)
+                lo_r, hi_r = float(xs[k0]), float(xs[-k0 - 1])
+                try:
+                    torch.manual_seed(seed + 17)
+                    with torch.no_grad():
+                        smp = flow.sample(4000, ctx_row)[0] if ctx_row is not None else flow.sample(4000)
+                    smp = smp.reshape(-1, D)
+                    out_frac = float(((smp < lo_r) | (smp > hi_r) | ~torch.isfinite(smp)).any(-1).double().mean())
+                except Exception:
+                    out_frac = 0.0
+                    r.count("placement_sampling_raised")
+                if out_frac > 1e-3:
+                    r.count("integrals_undecided")
+                    r.count("mass_outside_resolved_grid")
+                    continue
                 I1, I2, est = q.integrate_2d(logp, dom, dom, case["n"])
                 r.count("integrals_2d")
                 tol, lim = 5e-3, 1e-2
